@@ -138,6 +138,11 @@ def family_log_reader(seed):
         n = B - 7 + d
         fam.append({"oracle": "log_reader", "ops": [["append", "gen", n, 5], ["reopen"], ["append", h(b"q")], ["append", "gen", 3 * B, 2]]})
         fam.append({"oracle": "log_reader", "ops": [["append", "gen", n, 5], ["append", h(b"qq")], ["truncate", n + 3]]})
+    # a reader that is opened between two writer sessions and NOT drained (recovery that stops early,
+    # an external tool): the writer reopened for appending still continues at the end of the file
+    # (seeded change C12-r8m2 sits in the in-memory file system's append re-open)
+    for k in (1, 2):
+        fam.append({"oracle": "log_reader", "ops": [["append", h(b"first")], ["append", h(b"second")], ["append", "gen", 100 + seed % 50, 4], ["peek", k], ["append", h(b"fourth")], ["peek", 1], ["append", h(b"fifth")]]})
     return fam
 
 
@@ -531,7 +536,7 @@ BOUNDS = {
     "family_db_views": "whole-database histories of at most 85 operations over 7 keys (18 hand-written - among them the witnesses of F11 (level-targeted manual compactions with 4 KiB files) and F12 (one byte of the manifest altered between close and reopen; `open` may refuse) - + 10 pseudo-random per seed); every live snapshot and the latest state read back through get, both scan directions, seek to every key, a zig-zag walk and 5 cursor scripts per key; every history ends with a directory check (snapshots and iterators released, one empty flush, then the table files on disk must be those of the current version)",
     "family_scan_damage": "7 databases of 120 keys in table files of about 25 blocks (block size 256); one byte of the newest table file is altered at 7 positions spread over the file; every key is looked up and the database is scanned in both directions; a lookup may fail, a scan may fail, neither may show anything else than the pairs written",
     "family_manifest_type": "3 histories of two or three flushes (one with a manual compaction); while the database is closed the type code of the last, second-to-last or third-to-last fragment of the manifest is changed from Full to First, checksum and payload untouched; each history is also run unaltered (control); `open` may refuse, otherwise every key is looked up and the database is scanned",
-    "family_log_reader": "write-ahead-log byte streams built from the hand-written and seeded append / reopen / truncate / flip scripts of tools/replay.py (records up to 3 blocks)",
+    "family_log_reader": "write-ahead-log byte streams built from the hand-written and seeded append / reopen / truncate / flip / peek scripts of tools/replay.py (records up to 3 blocks; `peek` = a reader opened between two writer sessions and not drained); the real reader is compared with the reference reader on the resulting bytes and, for scripts without damage, with the records appended",
     "family_table_get": "one table of 16 entries (4 user keys x 4 versions) at block sizes 1, 64, 150, 4096 with 49 lookups, plus a one-entry table",
     "family_key_range": "three hand-written file lists",
     "family_bloom": "7 key sets (sizes 1 to 300, empty / 0x00 / 0xff keys, one pseudo-random set per seed) at 8 bits-per-key settings from 0 to 100",
